@@ -72,30 +72,38 @@ def tree_hash():
 
 
 def run_group(cmd, timeout, env=None, cwd=None, stdin=None):
-    """Run cmd in its own process group; kill the whole group afterwards.
-    Returns (returncode or None on timeout, stdout, stderr)."""
-    p = subprocess.Popen(
-        cmd, stdout=subprocess.PIPE, stderr=subprocess.PIPE, stdin=subprocess.PIPE if stdin else subprocess.DEVNULL,
-        env=env, cwd=cwd, start_new_session=True, text=True,
-    )
+    """Run cmd in its own process group with stdout/stderr going to files (orphaned grandchildren such as
+    ParallelMap workers keep pipes open, so pipes would block until they die); wait for the LEADER only,
+    then kill the whole group.  Returns (returncode or None on timeout, stdout, stderr)."""
+    import tempfile
+    os.makedirs(CACHE, exist_ok=True)
+    fo = tempfile.TemporaryFile(mode="w+", dir=CACHE)
+    fe = tempfile.TemporaryFile(mode="w+", dir=CACHE)
+    fi = None
+    if stdin is not None:
+        fi = tempfile.TemporaryFile(mode="w+", dir=CACHE)
+        fi.write(stdin)
+        fi.seek(0)
+    p = subprocess.Popen(cmd, stdout=fo, stderr=fe, stdin=fi if fi else subprocess.DEVNULL, env=env, cwd=cwd, start_new_session=True)
     try:
-        out, err = p.communicate(stdin, timeout=timeout)
-        rc = p.returncode
+        rc = p.wait(timeout=timeout)
     except subprocess.TimeoutExpired:
         rc = None
-        try:
-            os.killpg(p.pid, signal.SIGKILL)
-        except ProcessLookupError:
-            pass
-        try:
-            out, err = p.communicate(timeout=5)
-        except Exception:
-            out, err = "", ""
     finally:
         try:
             os.killpg(p.pid, signal.SIGKILL)
         except (ProcessLookupError, PermissionError):
             pass
+        try:
+            p.wait(timeout=10)
+        except Exception:
+            pass
+    fo.seek(0)
+    fe.seek(0)
+    out, err = fo.read(), fe.read()
+    for f in (fo, fe, fi):
+        if f:
+            f.close()
     return rc, out, err
 
 
